@@ -67,6 +67,15 @@ ImputeClauses(c, j, sub) ==
                     [] Tr.strategy = "product" -> S!ProductOK(x, ms[i].x, sub, c.rows)
                     [] OTHER -> \A f \in sub : ms[i].x[f] = Tr.defaults[f])
             /\ Ck("impute.no_extra_keys", Len(ms[i].extra_keys) = 0)
+      \* C04 / C18: background rows are explained by logged uniform draws over the *whole* storage
+      /\ Ck("draw.row_range",
+            (Tr.strategy \in {"joint", "product"} /\ Len(c.rows) > 0) =>
+               \A q \in 1..Len(c.draws) : c.draws[q][2] = Len(c.rows))
+      /\ Ck("draw.used_row",
+            (Tr.strategy = "joint" /\ Tr.defimp /\ Len(c.draws) = Len(SelectSeq(c.models, LAMBDA m : m.imp > 0))) =>
+               \A i \in 1..Len(ms) :
+                  LET before == Len(SelectSeq(c.models, LAMBDA m : m.imp > 0 /\ m.imp < j)) IN
+                  \A f \in sub : ms[i].x[f] = c.rows[c.draws[before + i][3] + 1][f])
       /\ Ck("impute.no_mutation", c.imputes[j].subset_unmodified /\ c.imputes[j].x_is_arg)
       /\ Ck("impute.empty_subset_is_identity",
             sub = {} => \A i \in 1..Len(ms) : ms[i].x = x)
